@@ -842,7 +842,11 @@ func (e *Ex) start() {
 		e.dl = listen()
 		e.downAddr = e.dl.Addr().String()
 		go e.serveDownstream(e.dl)
-		p.SetDownstreamProxy(&url.URL{Scheme: "http", Host: e.downAddr})
+		du := &url.URL{Scheme: "http", Host: e.downAddr}
+		if e.conn["dspu"] == "1" { // a downstream proxy URL that carries credentials
+			du.User = url.UserPassword("verif-user", "verif-pass")
+		}
+		p.SetDownstreamProxy(du)
 	}
 	if ms, err := strconv.Atoi(e.conn["to"]); err == nil && ms > 0 {
 		// a short idle timeout: a connection that stays busy must outlive it (the deadline is per request)
@@ -924,6 +928,14 @@ func (e *Ex) start() {
 	}
 	if strings.HasPrefix(e.conn["listener"], "shaped") {
 		e.shaped = trafficshape.NewListener(sl)
+		// listener SETTINGS: a latency per connection, bit rates (default when absent)
+		if ms, err := strconv.Atoi(e.conn["tsl"]); err == nil && ms > 0 {
+			e.shaped.SetLatency(time.Duration(ms) * time.Millisecond)
+		}
+		if br, err := strconv.ParseInt(e.conn["tsb"], 10, 64); err == nil && br > 0 {
+			e.shaped.SetReadBitrate(br)
+			e.shaped.SetWriteBitrate(br)
+		}
 		sl = e.shaped
 	}
 	go p.Serve(sl)
@@ -1029,7 +1041,12 @@ func (e *Ex) runScenario() core.Result {
 			sentIn(id)
 		}
 		cc.c.SetWriteDeadline(time.Now().Add(ioTimeout))
-		go cc.c.Write(all.Bytes())
+		if e.conn["hc"] == "before" {
+			cc.c.Write(all.Bytes())
+			closeWrite(cc.c) // nothing more to say; the answers are still to come (lifecycle.go)
+		} else {
+			go cc.c.Write(all.Bytes())
+		}
 		for _, id := range e.ids {
 			it := w.items[id]
 			res, body, berr := cc.readResponse(it.s("m", "GET"))
@@ -1053,6 +1070,10 @@ func (e *Ex) runScenario() core.Result {
 				alive = false
 				break
 			}
+		}
+		if e.conn["hc"] != "" {
+			closeWrite(cc.c)
+			alive = false
 		}
 	} else {
 		halfSent := 0
@@ -1150,6 +1171,11 @@ func (e *Ex) runScenario() core.Result {
 				} else {
 					send = func() error { _, err := cc.c.Write(req); return err }
 				}
+				halfClose := e.conn["hc"] != "" && idx == len(e.ids)-1
+				if halfClose && e.conn["hc"] == "before" {
+					s0 := send
+					send = func() error { err := s0(); closeWrite(cc.c); return err }
+				}
 				wdone := make(chan error, 1)
 				if earlyOK(it) {
 					// the gated upload reads (peeks) the connection itself while it waits: it runs first
@@ -1169,6 +1195,9 @@ func (e *Ex) runScenario() core.Result {
 					core.Count("client:request-write-failed")
 					isTimeout(werr) // an upload that did not fit into the bound is a bound-dependent observation
 				}
+				if halfClose {
+					closeWrite(cc.c) // hc=after: now; hc=before: again, harmless
+				}
 				if res == nil {
 					alive = false
 					continue
@@ -1186,8 +1215,8 @@ func (e *Ex) runScenario() core.Result {
 					continue
 				}
 				e.absorb(id, it, res, body, berr)
-				if berr != nil {
-					alive = false
+				if berr != nil || halfClose {
+					alive = false // (after a half-close there is nothing more the client can ask)
 				}
 			case "cmitm", "cblind":
 				authority := e.originTLSAddr
